@@ -278,7 +278,7 @@ func (j *rootJudge) genAndJudge(r *gen.RNG, i int) {
 func runC17(c *Ctx) {
 	c.Parallel("roots", ref.NearestEven, func(sh *mon.Shard, r *gen.RNG) {
 		j := &rootJudge{ctx: c, sh: sh}
-		n := c.N(12000, 300000)
+		n := c.N(60000, 600000)
 		for i := 0; i < n; i++ {
 			j.genAndJudge(r, i)
 		}
